@@ -97,6 +97,36 @@ fn upgraded_handler(
         r.upgraded.push((String::new(), buf));
         return Ok(Vec::new());
     }
+    if mode == 4 {
+        // V4: length-prefixed frames. Peeks at what is buffered; consumes the length byte; if the
+        // payload is not complete yet it hands the length byte back as unread and leaves the partial
+        // payload in the reader
+        loop {
+            let (len, have) = {
+                let b = loop {
+                    match bufreader.fill_buf() {
+                        Err(ref e) if e.kind() == std::io::ErrorKind::Interrupted => continue,
+                        other => break other,
+                    }
+                };
+                let b = b.map_err(varlink::map_context!())?;
+                if b.is_empty() {
+                    return Ok(Vec::new());
+                }
+                (b[0] as usize, b.len() - 1)
+            };
+            bufreader.consume(1);
+            if have < len {
+                // (the rest of what is buffered is a partial payload: it stays in the reader)
+                return Ok(vec![len as u8]);
+            }
+            let mut payload = vec![0u8; len];
+            bufreader.read_exact(&mut payload).map_err(varlink::map_context!())?;
+            let mut rec_bytes = vec![len as u8];
+            rec_bytes.extend_from_slice(&payload);
+            lock(rec).upgraded.push((String::new(), rec_bytes));
+        }
+    }
     // V2: newline-terminated records; acknowledges each; an incomplete record is returned as unread
     // V3: like V2, but (as the repository's ping example does) a batch ends with the record "End\n":
     //     the handler returns there and is called again for the next batch
